@@ -472,8 +472,58 @@ pub fn gen_s6(rng: &mut Rng) -> Scenario {
     Scenario { init, order, threads, f2: (0..n).map(|_| if rng.chance(0.2) { vec![0] } else { vec![] }).collect(), pre: vec![] }
 }
 
+/// S4: the dispatch pattern of benches/src/cut_edges.rs: an exclusive epoch selects the edges
+/// longer than a target and appends 6 fresh darts per selected edge (`add_free_darts`, run for
+/// real as the scenario's prologue); then the work units (edge, its 6 darts) are statically
+/// partitioned in chunks over the simulated threads (the stub of rayon / std::thread::scope),
+/// each unit processed by the bench's `while !with_control_and_err(always Retry, cut).is_validated()`
+/// loop (bounded) with `is_i_free::<2>` deciding between the outer and the inner cut.
+pub fn gen_s4(rng: &mut Rng) -> Scenario {
+    use crate::hist::Step;
+    use crate::ops::{Op, Runner, Tx};
+    let (nx, ny) = (1 + rng.below(2), 1 + rng.below(2));
+    let mesh = grid_mesh(rng, nx, ny, true, 0.3);
+    let (init, _) = state_from_mesh(&mesh, 0, 0);
+    let (pv, pe) = (init.partition(0), init.partition(1));
+    let len = |e: u32| -> f64 {
+        let a = crate::state::f3(init.vtx[pv[e as usize] as usize].unwrap());
+        let b = crate::state::f3(init.vtx[pv[init.b(1, e) as usize] as usize].unwrap());
+        ((a[0] - b[0]).powi(2) + (a[1] - b[1]).powi(2)).sqrt()
+    };
+    let mut edges: Vec<u32> = (1..init.n() as u32).filter(|&d| pe[d as usize] == d).collect();
+    let target = 0.8 + 0.6 * rng.unit();
+    edges.retain(|&e| len(e) > target);
+    rng.shuffle(&mut edges);
+    edges.truncate(3 + rng.below(5));
+    if edges.is_empty() {
+        edges.push(1);
+    }
+    let n_e = edges.len();
+    let first_new = init.n() as u32;
+    let units: Vec<(u32, [u32; 6])> = edges.iter().enumerate().map(|(k, &e)| (e, std::array::from_fn(|j| first_new + 6 * k as u32 + j as u32))).collect();
+    let n_threads = 2 + rng.below(2);
+    let chunk = 1 + n_e / n_threads;
+    let mut threads: Vec<Vec<Tx>> = vec![];
+    for wl in units.chunks(chunk) {
+        threads.push(
+            wl.iter()
+                .map(|&(e, nd)| {
+                    let op = if init.b(2, e) == 0 { Op::CutOuter { e, nd: [nd[0], nd[1], nd[2]] } } else { Op::CutInner { e, nd } };
+                    Tx { runner: if rng.chance(0.7) { Runner::RetryLoop(3) } else { Runner::ControlRetry }, ops: vec![op], f1: vec![], f2: vec![], f1_attempt: 0 }
+                })
+                .collect(),
+        );
+    }
+    while threads.len() < 2 {
+        threads.push(vec![Tx { runner: Runner::WithErr, ops: vec![Op::Audit { kinds: 0, data: true }], f1: vec![], f2: vec![], f1_attempt: 0 }]);
+    }
+    let n = threads.len();
+    Scenario { init, order: [vec![], vec![], vec![]], threads, f2: (0..n).map(|_| if rng.chance(0.3) { vec![rng.below(3) as u32] } else { vec![] }).collect(), pre: vec![Step::AddFreeDarts(6 * n_e as u32)] }
+}
+
 pub fn gen_family(rng: &mut Rng) -> (&'static str, Scenario) {
-    match rng.below(29) {
+    match rng.below(31) {
+        29..=30 => ("S4", gen_s4(rng)),
         26..=28 => ("S6", gen_s6(rng)),
         20..=25 => ("S1b", gen_pair_conflict(rng)),
         0..=7 => ("S1", gen_s1(rng)),
